@@ -152,7 +152,7 @@ Proof.
   { assert (lenN rb <? 6 + length = false) as -> by (apply N.ltb_ge; lia). apply slice_ok; lia. }
   destruct (is_audio_code code).
   - destruct ((ps_ast st =? 15) || (ps_ast st =? 144) || (ps_ast st =? 145)).
-    + set (X := if (pts =? -1)%Z then _ else _). destruct X as [[pts' abuf] evs].
+    + set (X := if (pts =? -1)%Z then _ else _). destruct X as [[[pts' dts'] abuf] evs].
       rewrite Hdata. cbn [bind]. eexists _, _, _. split; [reflexivity|repeat split].
     + eexists _, _, _. split; [reflexivity|apply same_lb_refl].
   - match goal with |- context [bind ?X _] =>
